@@ -25,7 +25,7 @@ PROPS["C01"] = {
         {"mod": "verif_kani_exec", "host": "engine/src/scheme.rs", "file": "engine/exec_kernels.rs"},
     ],
     "harnesses": [
-        {"name": "c01_absent_value_default", "mod": "verif_kani_exec", "big": True, "tier": "thorough", "core": False, "timeout": 3000, "mem_gb": 40, "rss_gb": 30,
+        {"name": "c01_absent_value_default", "mod": "verif_kani_exec", "big": True, "tier": "thorough", "core": False, "timeout": 1800, "mem_gb": 40, "rss_gb": 30,
          "encodes": ["IndexExpr::compile_with", "IndexExpr::compile_one_with (closure)", "ExecutionContext::new", "set_field_value", "get_field_value_unchecked", "CompiledOneExpr::execute"],
          "symbolic": "field present/absent, value i64, default bool, comparator answer bool", "bound": "one optional Int field, unwind 5", "oracle": "absent => default and comparator not called; present => comparator's answer on that value", "min_covers": 3,
          "stubs": ["comparator: harness probe implementing Compare"]},
@@ -96,7 +96,7 @@ PROPS["C09"] = {
          "encodes": ["ComparisonExpr::compile_with_compiler (real match on the operator, comparator construction, nil default) with IndexExpr::compile_with stubbed by the harness continuation"],
          "symbolic": "probe i64, empty list", "bound": "0 items", "oracle": "false", "min_covers": 1,
          "stubs": ["IndexExpr::compile_with -> harness continuation applying the built comparator to a symbolic value", "rand::rngs::thread::rng -> unreachable"]},
-        {"name": "c09_oneof_ip", "mod": "verif_kani_cmp", "big": True, "tier": "thorough", "core": False, "timeout": 3000, "mem_gb": 40, "rss_gb": 20, "unwindset": [["memcmp", 18], ["chaining_impl", 10]],
+        {"name": "c09_oneof_ip", "mod": "verif_kani_cmp", "big": True, "tier": "thorough", "core": False, "timeout": 1800, "mem_gb": 40, "rss_gb": 20, "unwindset": [["memcmp", 18], ["chaining_impl", 10]],
          "encodes": ["ComparisonExpr::compile_with_compiler (real match on the operator, comparator construction, nil default) with IndexExpr::compile_with stubbed by the harness continuation"],
          "symbolic": "probe (family + u128); list {v4 CIDR a/len, explicit v6 range, single v4 address}", "bound": "3 items, unwind 18", "oracle": "membership in an item of the same family only; absent: false", "min_covers": 5,
          "stubs": ["IndexExpr::compile_with -> harness continuation applying the built comparator to a symbolic value", "rand::rngs::thread::rng -> unreachable"]},
@@ -536,7 +536,7 @@ _PENC = ["<LogicalExpr as LexWith>::lex_with", "LogicalExpr::lex_simple_expr", "
          "FilterParser::with_increased_nesting"]
 
 _define("C03", _EXEC_MOD, {
-    "name": "c03_optional_defaults", "mod": "verif_kani_exec", "big": True, "tier": "thorough", "core": False, "timeout": 3000, "mem_gb": 40, "rss_gb": 30,
+    "name": "c03_optional_defaults", "mod": "verif_kani_exec", "big": True, "tier": "thorough", "core": False, "timeout": 1800, "mem_gb": 40, "rss_gb": 30,
     "encodes": ["SimpleFunctionDefinition::compile (closure)", "ExactSizeChain", "arg_count"],
     "symbolic": "defaults d0,d1 (i64), supplied values (3 x i64), number supplied 1..3",
     "bound": "1 mandatory + 2 optional params, unwind 6",
@@ -616,7 +616,7 @@ for _n in range(2, 17):
         "stubs": ["IndexExpr::compile_with -> harness continuation", "rand::rngs::thread::rng -> unreachable",
                   "rewrite R2", "rewrite R1"]})
 _define("C09", _CMP_MOD, {
-    "name": "c09_oneof_bytes", "mod": "verif_kani_cmp", "big": True, "tier": "thorough", "core": False, "timeout": 3000, "mem_gb": 40, "rss_gb": 20,
+    "name": "c09_oneof_bytes", "mod": "verif_kani_cmp", "big": True, "tier": "thorough", "core": False, "timeout": 1800, "mem_gb": 40, "rss_gb": 20,
     "encodes": ["ComparisonExpr::compile_with_compiler (OneOf/Bytes arm: BTreeSet construction, Contains comparator)"],
     "symbolic": "one 2-byte and one 1-byte item, probe <= 2 bytes", "bound": "2 items, unwind 8",
     "oracle": "probe equals some listed byte string; absent => false", "min_covers": 3,
@@ -675,7 +675,7 @@ _define("C09", _CMP_MOD, {
     "min_covers": 4,
     "stubs": ["IndexExpr::compile_with -> harness continuation", "rand::rngs::thread::rng -> unreachable"]})
 _define("C09", _CMP_MOD, {
-    "name": "c09_oneof_ip_v6_item", "mod": "verif_kani_cmp", "big": True, "tier": "thorough", "core": False, "timeout": 3000, "mem_gb": 40, "rss_gb": 20,
+    "name": "c09_oneof_ip_v6_item", "mod": "verif_kani_cmp", "big": True, "tier": "thorough", "core": False, "timeout": 1800, "mem_gb": 40, "rss_gb": 20,
     "unwindset": [["memcmp", 18], ["chaining_impl", 10]],
     "encodes": ["ComparisonExpr::compile_with_compiler (OneOf/Ip arm)"],
     "symbolic": "explicit IPv6 range lo..hi (u128), probe of either family", "bound": "1 item, unwind 5 (memcmp 18, slice-compare 10)",
